@@ -13,6 +13,7 @@ mod scc;
 mod sort;
 mod util;
 mod visit;
+mod xform;
 
 use std::io::Write;
 
@@ -69,6 +70,7 @@ fn main() {
         "split" => split::run(seed, count, maxn, &mode, &mut out),
         "scc" => scc::run(seed, count, maxn, &mode, &mut out),
         "sort" => sort::run(seed, count, maxn, &mode, &mut out),
+        "xform" => xform::run(seed, count, maxn, &mode, &mut out),
         other => {
             eprintln!("unknown channel {other}");
             std::process::exit(2);
